@@ -170,7 +170,89 @@ func wrapTables(q string) string {
 	q = strings.ReplaceAll(q, "`distinct=>objs`", "`distinct=>root.objs`")
 	q = strings.ReplaceAll(q, "`distinct=>t`", "`distinct=>root.t`")
 	q = strings.ReplaceAll(q, "`t[", "`root.t[")
+	for _, k := range []string{"teams", "rag", "deep"} {
+		q = strings.ReplaceAll(q, " FROM "+k, " FROM root."+k)
+		q = strings.ReplaceAll(q, "`<-"+k+"`", "`<-root."+k+"`")
+	}
 	return q
+}
+
+// nestedTables adds two tables whose rows are arrays to a fault document: teams (the n arrays of t's rows: an array of
+// arrays of objects) and rag (objects and arrays of objects side by side). No draws: the document stays what it was.
+func nestedTables(doc map[string]any) {
+	teams, rag := []any{}, []any{}
+	for i, r := range doc["t"].([]any) {
+		n, _ := r.(map[string]any)["n"].([]any)
+		cp := []any{}
+		for _, e := range n {
+			m := map[string]any{}
+			for k, v := range e.(map[string]any) {
+				m[k] = v
+			}
+			cp = append(cp, m)
+		}
+		teams = append(teams, cp)
+		if i%2 == 0 {
+			rag = append(rag, map[string]any{"v": float64(i), "w": "r"})
+		}
+		cp2 := []any{}
+		for _, e := range n {
+			m := map[string]any{}
+			for k, v := range e.(map[string]any) {
+				m[k] = v
+			}
+			cp2 = append(cp2, m)
+		}
+		rag = append(rag, cp2)
+	}
+	doc["teams"], doc["rag"] = teams, rag
+}
+
+// genPagedQuery: a single-table query assembled from independent clauses over a table that may be larger than any
+// batch, pool or fast-path threshold (the caller draws 70-300 rows): select list x alias x WHERE x DISTINCT x ORDER BY x
+// LIMIT/OFFSET. The input must come back as it went in whatever route the engine takes for the combination.
+func genPagedQuery(t *rapid.T, nrows int) string {
+	alias := rapid.SampledFrom([]string{"", "", " x"}).Draw(t, "pg_alias")
+	p := ""
+	if alias != "" {
+		p = "x."
+	}
+	list := rapid.SampledFrom([]string{"*", "*", p + "id, " + p + "a", p + "id", p + "s, " + p + "a AS aa", "*, " + p + "a AS a2"}).Draw(t, "pg_list")
+	q := "SELECT "
+	if rapid.IntRange(0, 5).Draw(t, "pg_distinct") == 0 {
+		q += "DISTINCT "
+	}
+	q += list + " FROM t" + alias
+	if rapid.IntRange(0, 2).Draw(t, "pg_where") == 0 {
+		q += " WHERE " + p + rapid.SampledFrom([]string{"a >= 10", "id > 3", "s LIKE 'x%'", "a >= 0"}).Draw(t, "pg_pred")
+	}
+	if rapid.IntRange(0, 3).Draw(t, "pg_order") > 0 {
+		q += " ORDER BY " + p + rapid.SampledFrom([]string{"id", "id DESC", "a", "a DESC, " + p + "id", "s, " + p + "id DESC", "s"}).Draw(t, "pg_key")
+	}
+	if rapid.IntRange(0, 3).Draw(t, "pg_limit") > 0 {
+		q += fmt.Sprintf(" LIMIT %d", rapid.SampledFrom([]int{1, 2, 3, 10, nrows / 2, nrows, nrows + 5}).Draw(t, "pg_n"))
+		if rapid.Bool().Draw(t, "pg_off") {
+			q += fmt.Sprintf(" OFFSET %d", rapid.SampledFrom([]int{0, 1, 2, nrows / 2}).Draw(t, "pg_m"))
+		}
+	}
+	return q
+}
+
+// bigTable: nrows rows in no particular order of id/a/s (so that a sort has work to do), with one nested array each.
+func bigTable(t *rapid.T, nrows int) []any {
+	rows := make([]any, nrows)
+	perm := rapid.Permutation(func() []int {
+		x := make([]int, nrows)
+		for i := range x {
+			x[i] = i
+		}
+		return x
+	}()).Draw(t, "pg_perm")
+	for i := range rows {
+		k := perm[i]
+		rows[i] = map[string]any{"id": float64(k + 1), "a": float64((k * 7) % 50), "s": []string{"x", "xy", "z"}[k%3], "n": []any{map[string]any{"v": float64(k % 5), "w": "p"}}}
+	}
+	return rows
 }
 
 // plain (no fault site) queries over the shapes the statement names.
@@ -247,6 +329,23 @@ var c11PlainQueries = []string{
 	"SELECT id, HASH(o) AS h, ENCODE(o) AS e, DEFAULTKEY(o) AS dk FROM t",
 	"SELECT id, CONCAT(s, '-', a) AS c, IF(f, tags, nums) AS pick FROM t",
 	"SELECT id, TO_UPPER(s) AS u, TO_LOWER(s) AS l FROM t",
+	// tables whose rows are arrays themselves (teams: arrays of objects; rag: objects and arrays side by side; deep) in
+	// every place a table can stand; several of these fail on the unchanged tree (INVALID_TYPE) - the input is judged either way
+	"SELECT v, w FROM teams",
+	"SELECT v FROM rag WHERE v >= 1",
+	"SELECT * FROM teams ORDER BY v DESC",
+	"SELECT DISTINCT * FROM rag",
+	"SELECT * FROM (SELECT v FROM teams) d",
+	"SELECT id FROM t WHERE EXISTS (SELECT v FROM `<-teams` WHERE v >= 1)",
+	"SELECT id FROM t WHERE EXISTS (SELECT v FROM `<-teams` WHERE v = id)",
+	"SELECT id FROM t WHERE EXISTS (SELECT v FROM `<-rag` WHERE v >= id)",
+	"SELECT id FROM t WHERE EXISTS (SELECT RAISE_WHEN(v = 2, 'no two') FROM `<-teams`)",
+	"SELECT id FROM u WHERE EXISTS (SELECT a FROM `<-deep` WHERE a >= 10)",
+	"SELECT id, (SELECT v FROM `<-teams`) AS sub FROM t",
+	"SELECT id, (SELECT * FROM `<-rag`) AS sub FROM t",
+	"SELECT id FROM t WHERE id IN (SELECT v FROM `<-teams`)",
+	"SELECT id FROM t WHERE NOT EXISTS (SELECT * FROM `<-deep`)",
+	"WITH c AS (SELECT v FROM teams) SELECT * FROM c",
 	// WITH in sibling / nested statements
 	"WITH c AS (SELECT id, a FROM t) SELECT id FROM c UNION ALL SELECT id FROM u",
 	"WITH c AS (SELECT id FROM t) SELECT id FROM c UNION SELECT id FROM c",
@@ -272,11 +371,20 @@ func genC11(t *rapid.T) *Bundle {
 	case "stub":
 		exp.FQ = genFaultQueryOpt(t, root, true)
 	case "plain":
+		nestedTables(doc)
 		q := rapid.SampledFrom(c11PlainQueries).Draw(t, "plain_q")
+		shape := "plain"
+		if rapid.IntRange(0, 2).Draw(t, "paged") == 0 {
+			// a table beyond any threshold (or a small one), and a query assembled clause by clause
+			n := rapid.SampledFrom([]int{3, 17, 70, 130, 300}).Draw(t, "pg_rows")
+			doc["t"] = bigTable(t, n)
+			q = genPagedQuery(t, n)
+			shape = "paged"
+		}
 		if wrapped {
 			q = wrapTables(q)
 		}
-		exp.FQ = faultQuery{Query: q, Shape: "plain"}
+		exp.FQ = faultQuery{Query: q, Shape: shape}
 		if strings.Contains(q, "fx(") {
 			exp.FQ.Async = []int{90, 91, 92}
 		}
@@ -314,6 +422,8 @@ func corpusC11() []*Bundle {
 		"dups": []any{1.0, 1.0, 2.0, 3.0, 2.0},
 		"objs": []any{map[string]any{"k": 1.0}, map[string]any{"k": 1.0}, map[string]any{"k": 2.0}},
 	}
+	nestedTables(doc)
+	doc["deep"] = []any{[]any{map[string]any{"id": 1.0, "a": 10.0}, map[string]any{"id": 2.0, "a": 20.0}}, []any{map[string]any{"id": 3.0, "a": 5.0}}}
 	var out []*Bundle
 	for _, wrapped := range []bool{false, true} {
 		for _, q := range c11PlainQueries {
